@@ -15,7 +15,8 @@ if not ok:
 subprocess.run([os.path.join(R.GO, 'bin', 'extract'), '-repo', R.REPO, '-out', os.path.join(R.LEAN, 'RoGen')], check=True)
 # (generated file, snapshot, the property module that has to build before a snapshot is taken)
 PAIRS = [('OpsGen.lean', 'OpsGen.snapshot', 'RoProps.C04gen'), ('SubjGen.lean', 'SubjGen.snapshot', 'RoProps.C10gen'),
-         ('GenGen.lean', 'GenGen.snapshot', 'RoProps.C04create'), ('MultiGen.lean', 'MultiGen.snapshot', 'RoProps.C05gen')]
+         ('GenGen.lean', 'GenGen.snapshot', 'RoProps.C04create'), ('MultiGen.lean', 'MultiGen.snapshot', 'RoProps.C05gen'),
+         ('LoopGen.lean', 'LoopGen.snapshot', 'RoProps.C15gen')]
 rc = 0
 for g, sn, mod in PAIRS:
     gen = os.path.join(R.LEAN, 'RoGen', g)
